@@ -12,7 +12,8 @@ the real one, composed from the models the other properties own:
     - `UpdateMessage::from_octets(_, cfg)` = `Rc.Upd.parseUpdate cfg`    (C01 / C02)
     - `NotificationMessage::from_octets`  = `Rc.Notif.fromOctets`       (C03)
     - `KeepaliveMessage::from_octets`     = `Rc.Notif.kaFromOctets`     (C03)
-  ROUTE-REFRESH (5) and unknown types are `Err(ParseError::Unsupported)`.
+    - `RouteRefreshMessage::from_octets`  = `Rc.Notif.rrFromOctets`     (C03; since the repair of K13)
+  unknown types are `Err(ParseError::Unsupported)`.
 * `toWire`  mirrors what `Session::handle_msg` (src/bgp/fsm/session.rs:485) and the
   `handle_event` arms `(Connect | Active, BgpOpenWithDelayOpenTimerRunning)` /
   `(OpenSent, BgpOpen)` (session.rs:930, 1245) read off the decoded message before they act:
@@ -33,12 +34,13 @@ import Rc.Model.Update
 namespace Rc.SessionDecode
 open Rc Rc.Framing
 
-/-- `bgp::message::Message<Bytes>` as `from_octets` returns it (ROUTE-REFRESH is never built) -/
+/-- `bgp::message::Message<Bytes>` as `from_octets` returns it -/
 inductive BgpMsg where
   | open (m : Bytes)
   | update (m : Upd.Msg)
   | notification (m : Bytes)
   | keepalive (m : Bytes)
+  | routeRefresh (m : Notif.RouteRefresh)
 
 /-- mirrors src/bgp/message/mod.rs:96 `Message::from_octets(octets, Some(config))` -/
 def msgFromOctets (cfg : Upd.Cfg) (bs : Bytes) : Outcome BgpMsg :=
@@ -54,7 +56,9 @@ def msgFromOctets (cfg : Upd.Cfg) (bs : Bytes) : Outcome BgpMsg :=
            | .ok m => .ok (.notification m) | .err => .err | .panic => .panic
     | 4 => match Notif.kaFromOctets bs with
            | .ok m => .ok (.keepalive m) | .err => .err | .panic => .panic
-    | _ => .err                                    -- RouteRefresh / Unimplemented(t): Unsupported
+    | 5 => match Notif.rrFromOctets bs with
+           | .ok m => .ok (.routeRefresh m) | .err => .err | .panic => .panic
+    | _ => .err                                    -- Unimplemented(t): Unsupported
 
 /-- what the session has been configured with, as far as decoding is concerned -/
 structure SessCfg where
@@ -130,6 +134,7 @@ def toWire (allowed : Nat → Bool) : BgpMsg → Outcome WireMsg
     | .err => .err
     | .panic => .panic
   | .keepalive _ => .ok .keepalive
+  | .routeRefresh _ => .ok .routeRefresh           -- "got ROUTEREFRESH, not doing anything": nothing is read
 
 /-- the concrete `body` of `Rc.Framing.decodeMsg` / `tickMsg` / `sessionRun` -/
 def sessionBody (sc : SessCfg) (f : Bytes) : Outcome WireMsg :=
